@@ -96,11 +96,24 @@ func (*Record).UnmarshalText
 
 // The byte counts of a record fit in memory: the sum of the name lengths
 // cannot wrap around (physical bound, stated as a precondition).
+// The text starts with the address exactly as netip prints it (zone and
+// IPv4-mapped form included), followed by a space; the first name follows
+// (the positions of the further names are not stated).
 func (Record).MarshalText
   requires len(rec.Names) <= 1000000000
   requires forall i in 0..len(rec.Names): len(rec.Names[i]) <= 1000000000
+  ensures no_error: err == nil
+  ensures address_first: len(data) >= len(addrText(rec.Addr)) &&
+    (forall k in 0..len(addrText(rec.Addr)): data[k] == addrText(rec.Addr)[k])
+  ensures then_a_space: len(rec.Names) > 0 ==> len(data) > len(addrText(rec.Addr)) && data[len(addrText(rec.Addr))] == ' '
   loop 0
     invariant safe_sum: 0 <= namesLen && namesLen <= (rangeindex + 1) * 1000000001
+  loop 1
+    invariant own_buffer: fresh(data) && off(data) == 0
+    invariant long_enough: len(data) >= len(addrText(rec.Addr)) + (rangeindex >= 0 ? 1 : 0) &&
+      (rangeindex < 0 ==> len(data) == len(addrText(rec.Addr)))
+    invariant prefix_kept: forall k in 0..len(addrText(rec.Addr)): data[k] == addrText(rec.Addr)[k]
+    invariant space_kept: rangeindex >= 0 ==> data[len(addrText(rec.Addr))] == ' '
 
 // Parse (property C08).  The ghost event log records, in order, every call of
 // Record.UnmarshalText and every call made through the Set / HandleSet /
